@@ -1016,3 +1016,47 @@ func (r *Run) RequireGuards(a *FnA, rule, con string, target ssa.Instruction, gu
 	}
 	return all
 }
+
+// structFields lists the field names of a named struct type.
+func structFields(n *types.Named) []string {
+	st, ok := n.Underlying().(*types.Struct)
+	if !ok {
+		return nil
+	}
+	var out []string
+	for i := 0; i < st.NumFields(); i++ {
+		out = append(out, st.Field(i).Name())
+	}
+	return out
+}
+
+// fieldReads counts the instructions that read field `field` of struct type typ.
+func fieldReads(w *World, fns []*ssa.Function, typ, field string) int {
+	n := 0
+	for _, fn := range fns {
+		for _, b := range fn.Blocks {
+			for _, in := range b.Instrs {
+				switch x := in.(type) {
+				case *ssa.Field:
+					if TypeName(x.X.Type()) == typ && fieldName(x.X.Type(), x.Field) == field {
+						n++
+					}
+				case *ssa.FieldAddr:
+					if TypeName(x.X.Type()) != typ || fieldName(x.X.Type(), x.Field) != field || x.Referrers() == nil {
+						continue
+					}
+					for _, ref := range *x.Referrers() {
+						if st, ok := ref.(*ssa.Store); ok && st.Addr == x {
+							continue
+						}
+						if _, ok := ref.(*ssa.DebugRef); ok {
+							continue
+						}
+						n++
+					}
+				}
+			}
+		}
+	}
+	return n
+}
